@@ -806,6 +806,368 @@ Proof.
   - eexists _, _. split; [reflexivity|]. apply Hgen; [reflexivity|exact I].
 Qed.
 
+(** ** drain inside histories: every range, every consumption pattern *)
+Lemma into_range_panic len sb eb (s : Vec.st) :
+  range_of_bounds usize_max len (to_sb sb) (to_sb eb) = None ->
+  into_range len sb eb s = Panic (range_panic sb eb) s.
+Proof.
+  unfold range_of_bounds, into_range, range_panic, bound_overflows, bind, of_opt, checked_add, assert_, ret, raise.
+  destruct sb as [|i|i], eb as [|j|j]; cbn [to_sb orb];
+    repeat match goal with
+           | |- context [N.leb ?a ?b] => destruct (N.leb_spec a b)
+           | |- context [N.ltb ?a ?b] => destruct (N.ltb_spec a b)
+           end; cbn [andb orb]; intros Hx; try discriminate; try reflexivity; try lia.
+Qed.
+Lemma into_range_ok len sb eb (s : Vec.st) a b :
+  range_of_bounds usize_max len (to_sb sb) (to_sb eb) = Some (a, b) ->
+  into_range len sb eb s = Ok (a, b) s /\ a <= b /\ b <= len.
+Proof.
+  intros H. pose proof (into_range_spec len sb eb s) as Hs.
+  assert (E : to_sbound = to_sb) by reflexivity. rewrite E, H in Hs. split; [exact Hs|].
+  apply (into_range_valid len sb eb s a b Hs).
+Qed.
+
+Lemma range_alive_any c v xs s e i j :
+  Rep c v xs -> (s <= i)%nat -> (i <= j)%nat -> (j <= e)%nat -> (e <= length xs)%nat ->
+  RangeAlive c (with_len (N.of_nat s) v) xs s e i j.
+Proof.
+  intros HR Hsi Hij Hje He.
+  pose proof (rep_held c v xs HR) as Hall.
+  assert (Hsplit : forall a b, (a <= b)%nat -> (b <= length xs)%nat -> Held c v a (firstn (b - a) (skipn a xs))).
+  { intros a b Hab Hb. pose proof Hall as H0. rewrite <- (firstn_skipn a xs) in H0.
+    apply held_split in H0. destruct H0 as [_ H1]. rewrite firstn_length_le in H1 by lia. cbn [Nat.add] in H1.
+    rewrite <- (firstn_skipn (b - a) (skipn a xs)) in H1. apply held_split in H1. exact (proj1 H1). }
+  destruct HR as [Hlen Hcap Husize Hstore Hmem Htok].
+  constructor; try assumption.
+  - lia.
+  - reflexivity.
+  - cbn [vcap with_len]. lia.
+  - specialize (Hsplit 0%nat s ltac:(lia) ltac:(lia)). rewrite Nat.sub_0_r in Hsplit. exact Hsplit.
+  - apply (Hsplit i j); lia.
+  - specialize (Hsplit e (length xs) He ltac:(lia)).
+    rewrite firstn_all2 in Hsplit by (rewrite skipn_length; lia). exact Hsplit.
+Qed.
+
+Lemma read_ptr_with_len c p n v u :
+  read_ptr c p (with_len n v, u)
+  = match read_ptr c p (v, u) with
+    | Ok bs _ => Ok bs (with_len n v, u)
+    | Panic q _ => Panic q (with_len n v, u)
+    | Fault f => Fault f
+    end.
+Proof.
+  destruct v as [l cp m g bk].
+  unfold read_ptr, check_range, bind, getv, fault_, ret, with_len.
+  cbv beta iota delta [fst snd vlen vcap vmem vgen vbk].
+  destruct (negb (pgen p =? g)); [reflexivity|].
+  destruct ((N.of_nat (poff p) + N.of_nat (szn c) <=? cp * c_sz c) && (poff p + szn c <=? length m)%nat); reflexivity.
+Qed.
+
+Lemma rep_held_one c v xs idx :
+  Rep c v xs -> (idx < length xs)%nat -> Held c v idx [nth idx xs 0].
+Proof.
+  intros HR Hi. pose proof (rep_held c v xs HR) as Hall.
+  destruct (nth_split xs 0 Hi) as (a & b & Hx & Ha).
+  rewrite Hx in Hall. apply held_split in Hall. destruct Hall as [_ H1].
+  change (nth idx xs 0 :: b) with ([nth idx xs 0] ++ b) in H1. apply held_split in H1.
+  rewrite Ha, Nat.add_0_l in H1. exact (proj1 H1).
+Qed.
+
+Lemma unwinding_okw {A} (m : M world A) cleanup w a w' : m w = Ok a w' -> unwinding m cleanup w = Ok a w'.
+Proof. intros E. unfold unwinding, on_unwind. rewrite E. reflexivity. Qed.
+
+Section Draining.
+Variables (c : cfg) (w : world) (st : astate) (vid : nat) (av : avec) (vv : vec) (s e : nat) (a : api).
+Hypothesis HW : WRep c w st.
+Hypothesis Hg : get_a vid st = Some av.
+Hypothesis Hgv : get_vec vid w = Some vv.
+Hypothesis HV : VI c vv av.
+Hypothesis Hfuse : ufuse (wuw w) = None.
+Hypothesis Hse : (s <= e)%nat.
+Hypothesis Hel : (e <= length (a_xs av))%nat.
+Let xs := a_xs av.
+Let vr := with_len (N.of_nat s) vv.
+
+(** worlds met while the iterator is alive: slot [vid] holds [vr], the others are untouched *)
+Record Walking (ww : world) (evs : list event) : Prop := {
+  wk_vec : get_vec vid ww = Some vr;
+  wk_other : forall n, n <> vid -> slot n (wv ww) = slot n (wv w);
+  wk_nx : unext (wuw ww) = unext (wuw w);
+  wk_fuse : ufuse (wuw ww) = None;
+  wk_evs : uevents (wuw ww) = rev evs ++ uevents (wuw w)
+}.
+
+Lemma walking_put ww evs u' evs' :
+  Walking ww evs -> unext u' = unext (wuw w) -> ufuse u' = None -> uevents u' = rev evs' ++ uevents (wuw w) ->
+  Walking (put_vec vid (Some vr) u' ww) evs'.
+Proof.
+  intros [Hv Ho Hn Hf He] Hn' Hf' He'. constructor.
+  - apply get_vec_put_same.
+  - intros n Hne. unfold put_vec. cbn [wv]. rewrite slot_set_nth.
+    destruct (Nat.eqb_spec n vid); [contradiction|apply Ho; exact Hne].
+  - rewrite wuw_put. exact Hn'.
+  - rewrite wuw_put. exact Hf'.
+  - rewrite wuw_put. exact He'.
+Qed.
+
+Lemma item_read ww evs idx :
+  Walking ww evs -> (s <= idx)%nat -> (idx < e)%nat ->
+  on_vec vid (read_ptr c (ptr_at c vr (N.of_nat idx))) ww
+  = Ok (enc (szn c) (nth idx xs 0)) (put_vec vid (Some vr) (wuw ww) ww).
+Proof.
+  intros Hwk Hsi Hie. apply (on_vec_ok vid _ ww vr); [apply (wk_vec _ _ Hwk)|].
+  assert (Hp : ptr_at c vr (N.of_nat idx) = ptr_at c vv (N.of_nat idx)) by reflexivity.
+  rewrite Hp. unfold vr. rewrite read_ptr_with_len.
+  rewrite (read_elem c vv (wuw ww) xs idx (vi_rep _ _ _ HV)) by (unfold xs in *; lia). reflexivity.
+Qed.
+
+Lemma item_tok idx : (idx < e)%nat -> tok_ok (szn c) (nth idx xs 0).
+Proof.
+  intros Hi. pose proof (rep_tok _ _ _ (vi_rep _ _ _ HV)) as Ht. rewrite Forall_forall in Ht.
+  apply Ht. apply nth_In. unfold xs in *. lia.
+Qed.
+
+(** what happens to a yielded item: dropped or downcast, the value is destroyed once; the storage is
+    not touched *)
+Lemma item_sink_spec ww evs idx sk out cleanup :
+  Walking ww evs -> (s <= idx)%nat -> (idx < e)%nat ->
+  match sk with KDrop => Some [] | KDown => Some [nth idx xs 0] | _ => None end = Some out ->
+  exists ww', unwinding (item_sink c vid a (ptr_at c vr (N.of_nat idx)) sk) cleanup ww = Ok out ww' /\
+              Walking ww' (evs ++ drop_ev c (nth idx xs 0)).
+Proof.
+  intros Hwk Hsi Hie Hout. set (t := nth idx xs 0) in *.
+  pose proof (item_tok idx Hie) as Ht. fold t in Ht.
+  destruct Hwk as [Hv Ho Hn Hf He].
+  assert (Hwk : Walking ww evs) by (constructor; assumption).
+  assert (Hevs : forall u', uevents u' = rev (drop_ev c t) ++ uevents (wuw ww) ->
+                 uevents u' = rev (evs ++ drop_ev c t) ++ uevents (wuw w)).
+  { intros u' H. rewrite H, He, rev_app_distr, app_assoc. reflexivity. }
+  destruct sk; try discriminate; injection Hout as <-.
+  - (* KDrop *)
+    destruct a.
+    + (* erased: Element::drop *)
+      cbn [item_sink]. unfold elem_drop. destruct (c_dg c) eqn:Hdg.
+      * assert (Ed : (do v0 <- getv; (if negb (pgen (ptr_at c vr (N.of_nat idx)) =? vgen v0) then fault_ FStale else ret tt);;
+                      drop_at c (poff (ptr_at c vr (N.of_nat idx)))) (vr, wuw ww)
+                     = Ok tt (vr, emit (EDrop t) (wuw ww))).
+        { unfold bind at 1. unfold getv. cbn [fst snd ptr_at pgen poff]. rewrite N.eqb_refl. cbn [negb].
+          unfold bind. unfold ret at 1. rewrite bo_of_nat.
+          apply drop_at_ok; auto.
+          - unfold vr. unfold store_ok. cbn [with_len vcap vmem]. apply (rep_store _ _ _ (vi_rep _ _ _ HV)).
+          - unfold vr. cbn [with_len vcap]. pose proof (rep_cap _ _ _ (vi_rep _ _ _ HV)).
+            pose proof (rep_len _ _ _ (vi_rep _ _ _ HV)). unfold xs in *. lia.
+          - unfold Held, vr. cbn [with_len vmem].
+            apply (rep_held_one c vv xs idx (vi_rep _ _ _ HV)). unfold xs in *. lia. }
+        exists (put_vec vid (Some vr) (emit (EDrop t) (wuw ww)) ww). split.
+        -- apply unwinding_okw. rewrite (bind_ok _ _ _ _ _ (on_vec_ok vid _ ww vr tt vr _ Hv Ed)). reflexivity.
+        -- apply (walking_put ww evs); auto.
+           apply Hevs. unfold drop_ev. rewrite Hdg. apply uevents_emit_user. reflexivity.
+      * exists (put_vec vid (Some vr) (wuw ww) ww). split.
+        -- apply unwinding_okw. rewrite (bind_ok _ _ _ _ _ (on_vec_ok vid (ret tt) ww vr tt vr (wuw ww) Hv eq_refl)). reflexivity.
+        -- apply (walking_put ww evs); auto. apply Hevs. unfold drop_ev. rewrite Hdg. reflexivity.
+    + (* typed: the value is read out and dropped by the caller *)
+      cbn [item_sink].
+      exists {| wv := wv (put_vec vid (Some vr) (wuw ww) ww);
+                wuw := if c_dg c then emit (EDrop t) (wuw ww) else wuw ww |}. split.
+      * apply unwinding_okw. unfold bind at 1. rewrite (item_read ww evs idx Hwk Hsi Hie).
+        unfold bind at 1. unfold decode. fold t. rewrite (dec_enc _ _ Ht). unfold ret at 1.
+        unfold bind, harness_drop. destruct (c_dg c); reflexivity.
+      * constructor; cbn [wuw].
+        -- rewrite get_vec_slot. cbn [wv]. rewrite <- get_vec_slot. apply get_vec_put_same.
+        -- intros n Hne. cbn [wv]. unfold put_vec. cbn [wv]. rewrite slot_set_nth.
+           destruct (Nat.eqb_spec n vid); [contradiction|apply Ho; exact Hne].
+        -- destruct (c_dg c); cbn [emit unext]; exact Hn.
+        -- destruct (c_dg c); cbn [emit ufuse]; exact Hf.
+        -- apply Hevs. unfold drop_ev. destruct (c_dg c); [apply uevents_emit_user; reflexivity|reflexivity].
+  - (* KDown *)
+    cbn [item_sink].
+    exists {| wv := wv (put_vec vid (Some vr) (wuw ww) ww);
+              wuw := if c_dg c then emit (EDrop t) (wuw ww) else wuw ww |}. split.
+    + apply unwinding_okw. unfold bind at 1. rewrite (item_read ww evs idx Hwk Hsi Hie).
+      unfold bind at 1. unfold decode. fold t. rewrite (dec_enc _ _ Ht). unfold ret at 1.
+      unfold bind, harness_drop. destruct (c_dg c); reflexivity.
+    + constructor; cbn [wuw].
+      * rewrite get_vec_slot. cbn [wv]. rewrite <- get_vec_slot. apply get_vec_put_same.
+      * intros n Hne. cbn [wv]. unfold put_vec. cbn [wv]. rewrite slot_set_nth.
+        destruct (Nat.eqb_spec n vid); [contradiction|apply Ho; exact Hne].
+      * destruct (c_dg c); cbn [emit unext]; exact Hn.
+      * destruct (c_dg c); cbn [emit ufuse]; exact Hf.
+      * apply Hevs. unfold drop_ev. destruct (c_dg c); [apply uevents_emit_user; reflexivity|reflexivity].
+Qed.
+
+Lemma cur_next_nat i j :
+  cur_next {| ci := N.of_nat i; ce := N.of_nat j |}
+  = if (i =? j)%nat then (None, {| ci := N.of_nat i; ce := N.of_nat j |})
+    else (Some (N.of_nat i), {| ci := N.of_nat (S i); ce := N.of_nat j |}).
+Proof.
+  unfold cur_next. cbn [ci ce].
+  destruct (Nat.eqb_spec i j) as [->|Hne].
+  - rewrite N.eqb_refl. reflexivity.
+  - destruct (N.eqb_spec (N.of_nat i) (N.of_nat j)) as [E|_]; [apply Nat2N.inj in E; contradiction|].
+    rewrite Nat2N.inj_succ, N.add_1_r. reflexivity.
+Qed.
+Lemma cur_next_back_nat i j :
+  cur_next_back {| ci := N.of_nat i; ce := N.of_nat j |}
+  = if (i =? j)%nat then (None, {| ci := N.of_nat i; ce := N.of_nat j |})
+    else (Some (N.of_nat (j - 1)), {| ci := N.of_nat i; ce := N.of_nat (j - 1) |}).
+Proof.
+  unfold cur_next_back. cbn [ci ce].
+  destruct (Nat.eqb_spec i j) as [->|Hne].
+  - rewrite N.eqb_refl. reflexivity.
+  - destruct (N.eqb_spec (N.of_nat j) (N.of_nat i)) as [E|_]; [apply Nat2N.inj in E; congruence|].
+    assert (E : N.of_nat j - 1 = N.of_nat (j - 1)) by lia. rewrite E. reflexivity.
+Qed.
+Lemma cur_len_nat i j : cur_len {| ci := N.of_nat i; ce := N.of_nat j |} = N.of_nat (j - i).
+Proof. unfold cur_len. cbn [ci ce]. lia. Qed.
+
+Lemma walk_spec cleanup : forall pat i j ww evs rets ds i' j',
+  Walking ww evs -> (s <= i)%nat -> (i <= j)%nat -> (j <= e)%nat ->
+  sp_walk xs pat i j = Some (rets, ds, i', j') ->
+  exists ww',
+    walk c vid a cleanup pat {| ci := N.of_nat i; ce := N.of_nat j |} ww
+    = Ok (rets, {| ci := N.of_nat i'; ce := N.of_nat j' |}) ww' /\
+    Walking ww' (evs ++ flat_map (drop_ev c) ds) /\ (i <= i')%nat /\ (i' <= j')%nat /\ (j' <= j)%nat.
+Proof.
+  induction pat as [|[front sk] pat IH]; intros i j ww evs rets ds i' j' Hwk Hsi Hij Hje Hsp; cbn [sp_walk] in Hsp.
+  - injection Hsp as <- <- <- <-. exists ww. cbn [walk flat_map]. rewrite app_nil_r.
+    split; [reflexivity|]. split; [exact Hwk|]. lia.
+  - cbn [walk].
+    destruct (Nat.eqb_spec i j) as [Heq|Hne].
+    + (* exhausted: None *)
+      destruct (sp_walk xs pat i j) as [[[[rets0 ds0] i0] j0]|] eqn:Er; [|discriminate].
+      injection Hsp as <- <- <- <-.
+      destruct (IH i j ww evs rets0 ds0 i0 j0 Hwk Hsi Hij Hje Er) as (ww' & E & Hwk' & Hb).
+      exists ww'. split; [|split; [exact Hwk'|exact Hb]].
+      assert (Hk : (if front then cur_next {| ci := N.of_nat i; ce := N.of_nat j |}
+                    else cur_next_back {| ci := N.of_nat i; ce := N.of_nat j |})
+                   = (None, {| ci := N.of_nat i; ce := N.of_nat j |})).
+      { destruct front; [rewrite cur_next_nat|rewrite cur_next_back_nat];
+          (destruct (Nat.eqb_spec i j); [reflexivity|contradiction]). }
+      rewrite Hk. rewrite (bind_ok _ _ _ _ _ E). unfold ret. cbn [fst snd]. rewrite cur_len_nat. reflexivity.
+    + set (idx := if front then i else (j - 1)%nat) in *.
+      set (i1 := if front then S i else i) in *. set (j1 := if front then j else (j - 1)%nat) in *.
+      set (t := nth idx xs 0) in *.
+      destruct (match sk with KDrop => Some [] | KDown => Some [t] | _ => None end) as [out|] eqn:Eout; [|discriminate].
+      destruct (sp_walk xs pat i1 j1) as [[[[rets0 ds0] i0] j0]|] eqn:Er; [|discriminate].
+      injection Hsp as <- <- <- <-.
+      assert (Hidx : (s <= idx)%nat /\ (idx < e)%nat) by (unfold idx; destruct front; lia).
+      assert (Hb1 : (s <= i1)%nat /\ (i1 <= j1)%nat /\ (j1 <= e)%nat) by (unfold i1, j1; destruct front; lia).
+      assert (Hk : (if front then cur_next {| ci := N.of_nat i; ce := N.of_nat j |}
+                    else cur_next_back {| ci := N.of_nat i; ce := N.of_nat j |})
+                   = (Some (N.of_nat idx), {| ci := N.of_nat i1; ce := N.of_nat j1 |})).
+      { unfold idx, i1, j1. destruct front; [rewrite cur_next_nat|rewrite cur_next_back_nat];
+          (destruct (Nat.eqb_spec i j); [contradiction|reflexivity]). }
+      rewrite Hk.
+      (* item_ptr *)
+      assert (Ep : item_ptr c vid (N.of_nat idx) ww = Ok (ptr_at c vr (N.of_nat idx)) ww).
+      { unfold item_ptr, bind. rewrite (peek_vec_ok vid ww vr (wk_vec _ _ Hwk)). reflexivity. }
+      rewrite (bind_ok _ _ _ _ _ Ep).
+      rewrite (bind_ok _ _ _ _ _ (item_read ww evs idx Hwk (proj1 Hidx) (proj2 Hidx))).
+      assert (Hwk1 : Walking (put_vec vid (Some vr) (wuw ww) ww) evs).
+      { apply (walking_put ww evs); [exact Hwk|apply (wk_nx _ _ Hwk)|apply (wk_fuse _ _ Hwk)|apply (wk_evs _ _ Hwk)]. }
+      unfold bind at 1. unfold decode. rewrite (dec_enc _ _ (item_tok idx (proj2 Hidx))). unfold ret at 1.
+      destruct (item_sink_spec _ evs idx sk out (cleanup {| ci := N.of_nat i1; ce := N.of_nat j1 |}) Hwk1 (proj1 Hidx) (proj2 Hidx) Eout)
+        as (ww2 & E2 & Hwk2).
+      rewrite (bind_ok _ _ _ _ _ E2).
+      destruct Hb1 as (Hb1a & Hb1b & Hb1c).
+      destruct (IH i1 j1 ww2 _ rets0 ds0 i0 j0 Hwk2 Hb1a Hb1b Hb1c Er) as (ww' & E & Hwk' & Hb).
+      exists ww'. split; [|split].
+      * rewrite (bind_ok _ _ _ _ _ E). unfold ret. cbn [fst snd]. rewrite cur_len_nat. reflexivity.
+      * cbn [flat_map]. rewrite app_assoc. exact Hwk'.
+      * unfold i1, j1 in Hb. destruct front; lia.
+Qed.
+End Draining.
+
+Lemma exec_drain c w st a vid sb eb pat f r :
+  cfg_wf c -> WRep c w st -> ufuse (wuw w) = None ->
+  sp_drain c st (unext (wuw w)) vid sb eb pat f = Some r ->
+  res_matches c w (exec c (ODrain a vid sb eb pat f) w) r.
+Proof.
+  intros Hwf HW Hfuse Hr. unfold sp_drain in Hr.
+  destruct (get_a vid st) as [av|] eqn:Hg; [|discriminate].
+  destruct (wrep_get c w st vid av HW Hg) as (vv & Hgv & HV).
+  pose proof (vi_rep _ _ _ HV) as HR. pose proof (rep_len _ _ _ HR) as Hlen.
+  set (xs := a_xs av) in *. cbv zeta in Hr.
+  cbn [exec]. rewrite (bind_ok _ _ _ _ _ (peek_vec_ok vid w vv Hgv)). rewrite Hlen.
+  destruct (range_of_bounds usize_max (N.of_nat (length xs)) (to_sb sb) (to_sb eb)) as [[sN eN]|] eqn:Erb.
+  - destruct (into_range_ok _ sb eb (vv, wuw w) sN eN Erb) as (Eir & Hse & Hel).
+    set (s := N.to_nat sN) in *. set (e := N.to_nat eN) in *.
+    assert (HsN : sN = N.of_nat s) by (unfold s; rewrite N2Nat.id; reflexivity).
+    assert (HeN : eN = N.of_nat e) by (unfold e; rewrite N2Nat.id; reflexivity).
+    assert (Hse' : (s <= e)%nat) by lia. assert (Hel' : (e <= length xs)%nat) by lia.
+    rewrite (bind_ok _ _ _ _ _ (on_vec_ok vid _ w vv _ vv (wuw w) Hgv Eir)). cbn [fst snd].
+    set (w1 := put_vec vid (Some vv) (wuw w) w).
+    set (vr := with_len (N.of_nat s) vv).
+    pose proof (drain_new_spec c vv (wuw w) xs s e HR Hse' Hel') as Edn. rewrite <- HsN, <- HeN in Edn.
+    rewrite (bind_ok _ _ _ _ _ (on_vec_ok vid _ w1 vv _ _ _ (get_vec_put_same vid (Some vv) (wuw w) w) Edn)).
+    rewrite HsN, HeN. fold vr.
+    set (w2 := put_vec vid (Some vr) (wuw w1) w1).
+    set (d := {| dcur := {| ci := N.of_nat s; ce := N.of_nat e |}; dstart := N.of_nat s; dend := N.of_nat e;
+                 dorig := N.of_nat (length xs) |}).
+    cbn [dcur].
+    assert (Hwk0 : Walking w vid vv s w2 []).
+    { constructor.
+      - apply get_vec_put_same.
+      - intros n Hne. unfold w2, w1, put_vec. cbn [wv]. rewrite !slot_set_nth.
+        destruct (Nat.eqb_spec n vid); [contradiction|reflexivity].
+      - reflexivity.
+      - exact Hfuse.
+      - reflexivity. }
+    destruct (sp_walk xs pat s e) as [[[[rets ds] i'] j']|] eqn:Ewalk; [|discriminate].
+    set (finish := fun k : cursor => on_vec vid (drain_drop c (known_of a) (with_cur k d))).
+    destruct (walk_spec c w vid av vv s e a HV Hse' Hel' finish pat s e w2 [] rets ds i' j'
+                Hwk0 (le_n s) Hse' (le_n e) Ewalk) as (ww' & Ew & Hwk & Hb1 & Hb2 & Hb3).
+    cbn [app] in Hwk.
+    rewrite (bind_ok _ _ _ _ _ Ew). cbn [fst snd].
+    destruct Hwk as [Hv Ho Hn Hf He].
+    destruct f; injection Hr as <-.
+    + (* the iterator is dropped *)
+      pose proof (range_alive_any c vv xs s e i' j' HR Hb1 Hb2 Hb3 Hel') as HA. fold vr in HA.
+      destruct (drain_drop_spec c vr (wuw ww') xs s e i' j' (known_of a) HA Hf)
+        as (v' & u' & Ed & HR' & Hc' & Hb' & Hn' & Hf' & Hl').
+      assert (Efin : finish {| ci := N.of_nat i'; ce := N.of_nat j' |} ww' = Ok tt (put_vec vid (Some v') u' ww')).
+      { unfold finish. apply (on_vec_ok vid _ ww' vr tt v' u' Hv). exact Ed. }
+      rewrite (bind_ok _ _ _ _ _ Efin). unfold ret.
+      assert (Hcl : cur_len (dcur d) = N.of_nat (e - s)) by (unfold d, cur_len; cbn [dcur ci ce]; lia). rewrite Hcl.
+      cbn [res_matches ok_res s_out s_pk s_ret s_st s_evs s_nx].
+      split; [reflexivity|split; [reflexivity|split; [reflexivity|]]]. rewrite N.sub_diag.
+      constructor.
+      * intros n. unfold put_vec, set_a. cbn [wv]. rewrite !slot_set_nth.
+        destruct (Nat.eqb_spec n vid) as [->|Hne].
+        -- destruct HV as [HRv Hbk Hbw Hcap]. constructor; cbn [with_xs a_bk a_xs]; auto.
+           ++ unfold vr in Hb'. cbn [with_len vbk] in Hb'. congruence.
+           ++ unfold vr in Hc'. cbn [with_len vcap] in Hc'. destruct (acap c (a_bk av)); [congruence|exact I].
+        -- rewrite (Ho n Hne). apply HW.
+      * rewrite wuw_put. lia.
+      * rewrite wuw_put. exact Hf'.
+      * rewrite wuw_put. unfold uevents at 1. rewrite Hl', uevents_drops. fold (uevents (wuw ww')). rewrite He.
+        rewrite rev_app_distr. destruct (c_dg c); cbn [rev app]; rewrite <- ?app_assoc; reflexivity.
+    + (* the iterator is leaked *)
+      unfold ret, bind.
+      assert (Hcl : cur_len (dcur d) = N.of_nat (e - s)) by (unfold d, cur_len; cbn [dcur ci ce]; lia). rewrite Hcl.
+      cbn [res_matches ok_res s_out s_pk s_ret s_st s_evs s_nx].
+      split; [reflexivity|split; [reflexivity|split; [reflexivity|]]]. rewrite N.sub_diag.
+      constructor.
+      * intros n. unfold set_a. rewrite slot_set_nth.
+        destruct (Nat.eqb_spec n vid) as [->|Hne].
+        -- rewrite get_vec_slot in Hv. rewrite Hv. apply vi_prefix; [exact HV|exact (Nat.le_trans _ _ _ Hse' Hel')].
+        -- rewrite (Ho n Hne). apply HW.
+      * lia.
+      * exact Hf.
+      * exact He.
+  - (* invalid range: panics before anything changes *)
+    injection Hr as <-.
+    pose proof (into_range_panic _ sb eb (vv, wuw w) Erb) as Ep.
+    rewrite (bind_panic _ _ _ _ _ (on_vec_panic vid _ w vv _ vv (wuw w) Hgv Ep)).
+    cbn [res_matches panic_res s_out s_pk s_ret s_st s_evs s_nx].
+    split; [reflexivity|split; [reflexivity|split; [reflexivity|]]]. rewrite N.sub_diag.
+    constructor.
+    + apply (wrep_put_same c w st vid vv av); assumption.
+    + rewrite wuw_put. lia.
+    + rewrite wuw_put. exact Hfuse.
+    + rewrite wuw_put. reflexivity.
+Qed.
+
 Lemma resizable_spec bk : resizable bk = true -> resizable_backend bk /\ forall c, acap c bk = None.
 Proof.
   destruct bk; cbn [resizable]; intros H; try discriminate; split; try reflexivity.
@@ -1038,6 +1400,8 @@ Proof.
     + unfold raise. cbn [res_matches panic_res s_out s_pk s_ret s_st s_evs s_nx].
       split; [reflexivity|split; [reflexivity|split; [reflexivity|]]]. rewrite N.sub_diag.
       apply step_ok_refl; assumption.
+  - (* ODrain *)
+    exact (exec_drain c w st a v sb eb pat f r Hwf HW Hfuse Hr).
   - (* OReserve *)
     cbn [admissible] in Hadm. cbn [exec].
     apply (exec_capacity c w st v (Some n) false r Hwf HW Hfuse Hr Hadm (reserve c n)).
@@ -1077,10 +1441,13 @@ Proof.
 Qed.
 Lemma sp_capacity_nx c st nx v want exact r : sp_capacity c st nx v want exact = Some r -> nx <= s_nx r /\ s_out r < 100.
 Proof. unfold sp_capacity. cbv zeta. intros H. crush H; cbn; split; lia. Qed.
+Lemma sp_drain_nx c st nx v sb eb pat f r : sp_drain c st nx v sb eb pat f = Some r -> nx <= s_nx r /\ s_out r < 100.
+Proof. unfold sp_drain. cbv zeta. intros H. crush H; cbn; split; lia. Qed.
 Lemma spec_nx_out c st nx o r : spec_step c st nx o = Some r -> nx <= s_nx r /\ s_out r < 100.
 Proof.
   intros H. destruct o; cbn [spec_step] in H; try discriminate;
     try (apply sp_capacity_nx in H; exact H);
+    try (apply sp_drain_nx in H; exact H);
     try (apply sp_take_nx in H; exact H);
     try (destruct (fresh_src s); [apply sp_offer_nx in H; exact H|discriminate]);
     crush H; cbn; split; lia.
@@ -1310,7 +1677,13 @@ Definition ex_ops : list op :=
     ORemove Erased 2 0 KForget; OGet Erased 1 1; OGet Erased 1 2; OAt Erased 1 0; OAt Erased 1 5;
     OReserve 1 5;                                              (* beyond the fixed capacity: panics *)
     OReserve 0 7; OReserveExact 0 20; OShrinkTo 0 3; OShrinkToFit 0; OReserve 1 18446744073709551615;
-    OClear Erased 1; ODropVec 2; ODropVec 0 ].
+    OClear Erased 1; ODropVec 2; ODropVec 0;
+    ONew 3 BHeap; OPush Erased 3 SWrap; OPush Erased 3 SWrap; OPush Erased 3 SWrap; OPush Erased 3 SWrap; OPush Erased 3 SWrap;
+    ODrain Typed 3 (BExcluded 0) (BIncluded 3) [(true, KDown); (false, KDrop); (false, KDown)] FinDrop;
+    ODrain Erased 3 (BIncluded 5) (BExcluded 2) [] FinDrop;                       (* start > end: panics *)
+    ODrain Erased 3 BUnbounded (BIncluded 18446744073709551615) [] FinDrop;       (* end + 1 overflows: panics *)
+    ODrain Erased 3 BUnbounded BUnbounded [(true, KDrop); (true, KDown); (true, KDown); (false, KDrop)] FinForget;
+    ODropVec 3 ].
 
 Example ex_spec_defined : exists rs, spec_run ex_cfg [] 1 ex_ops = Some rs /\ length rs = length ex_ops.
 Proof. eexists. split; [vm_compute; reflexivity|reflexivity]. Qed.
@@ -1323,7 +1696,10 @@ Example ex_outcomes :
   map (fun r => (s_out r, s_pk r, s_ret r)) (match spec_run ex_cfg [] 1 ex_ops with Some rs => rs | None => [] end)
   = [(0,0,[]); (0,0,[]); (0,0,[]); (0,0,[]); (0,0,[]); (0,0,[]); (0,0,[]); (2,1,[]); (0,0,[]); (0,0,[]);
      (2,3,[]); (0,0,[3]); (1,0,[]); (1,0,[]); (0,0,[]); (0,0,[]); (0,0,[]); (0,0,[]); (0,0,[1]); (1,0,[]);
-     (0,0,[4]); (2,1,[]); (2,3,[]); (0,0,[]); (0,0,[]); (0,0,[]); (0,0,[]); (2,5,[]); (0,0,[]); (0,0,[]); (0,0,[])].
+     (0,0,[4]); (2,1,[]); (2,3,[]); (0,0,[]); (0,0,[]); (0,0,[]); (0,0,[]); (2,5,[]); (0,0,[]); (0,0,[]); (0,0,[]);
+     (0,0,[]); (0,0,[]); (0,0,[]); (0,0,[]); (0,0,[]); (0,0,[]);
+     (0,0,[3; 1; 10; 2; 10; 1; 12; 1; 1; 11; 0; 11]); (2,4,[]); (2,5,[]);
+     (0,0,[2; 1; 9; 1; 1; 13; 0; 13; 0; 0; 0; 0; 0; 0]); (0,0,[])].
 Proof. vm_compute. reflexivity. Qed.
 
 (** ** Corollaries in the vocabulary of the properties *)
@@ -1377,3 +1753,4 @@ Proof.
   destruct (slot n (s_st r)) as [a|]; cbn in H; [|contradiction].
   apply (rep_cap _ _ _ (vi_rep _ _ _ H)).
 Qed.
+
